@@ -31,6 +31,8 @@ type WaitCase struct {
 	CtxCause bool  `json:"ctx_cause,omitempty"` // cancelled through context.WithCancelCause with a custom cause (ctx.Err() is still context.Canceled)
 	Route   string `json:"route,omitempty"`    // func / batch kinds: "" all builder methods; "opt-wait" wait through the constructor option, budget through the builder; "opt-all" both through options
 	CtxFar  bool   `json:"ctx_far,omitempty"` // the context also carries a deadline two hours away (explicit cancellation must still interrupt the wait)
+	DeadlineMs int `json:"deadline_ms,omitempty"` // > 0 (with Cancel = 1): nobody calls cancel — the context's own deadline, this many ms away, expires while the item sits in its hour-long wait
+	PreWaitNs int64 `json:"pre_wait_ns,omitempty"` // > 0: the node is first built with THIS wait and run once; then the wait is re-configured (builder method) to WaitNs and the measured run follows
 }
 
 type waitNode struct {
@@ -123,7 +125,13 @@ func runWaitCase(cs *WaitCase) (*waitObs, []finding) {
 	w := &waitRun{cs: cs, starts: map[int][]time.Time{}, ends: map[int][]time.Time{}}
 	wait := time.Duration(cs.WaitNs)
 	ctx := context.Background()
-	if cs.Cancel > 0 {
+	if cs.Cancel > 0 && cs.DeadlineMs > 0 {
+		c, cf := context.WithTimeout(ctx, time.Duration(cs.DeadlineMs)*time.Millisecond)
+		dl, _ := c.Deadline()
+		w.cancelAt = dl
+		ctx = c
+		defer cf()
+	} else if cs.Cancel > 0 {
 		c, cf := context.WithCancel(ctx)
 		if cs.CtxFar {
 			c, cf = context.WithTimeout(ctx, 2*time.Hour)
@@ -137,6 +145,9 @@ func runWaitCase(cs *WaitCase) (*waitObs, []finding) {
 	}
 	var node flyt.Node
 	var slots []flyt.Result
+	if cs.PreWaitNs > 0 {
+		wait = time.Duration(cs.PreWaitNs) // the configuration of the earlier run
+	}
 	switch cs.Kind {
 	case "struct":
 		wn := waitNode{flyt.NewBaseNode(flyt.WithMaxRetries(cs.N), flyt.WithWait(wait)), w}
@@ -189,6 +200,24 @@ func runWaitCase(cs *WaitCase) (*waitObs, []finding) {
 				slots = res
 				return "done", nil
 			})
+	}
+	if cs.PreWaitNs > 0 {
+		// earlier run with the earlier wait, then re-configure through the builder method and forget what was measured
+		_, _ = flyt.Run(context.Background(), node, flyt.NewSharedStore())
+		wait = time.Duration(cs.WaitNs)
+		switch nb := node.(type) {
+		case *flyt.NodeBuilder:
+			nb.WithWait(wait)
+		case *flyt.BatchNodeBuilder:
+			nb.WithWait(wait)
+		case *waitNode:
+			flyt.WithWait(wait)(nb.BaseNode)
+		case *waitNodeFB:
+			flyt.WithWait(wait)(nb.BaseNode)
+		}
+		w.mu.Lock()
+		w.starts, w.ends = map[int][]time.Time{}, map[int][]time.Time{}
+		w.mu.Unlock()
 	}
 	done := make(chan struct{})
 	var err error
@@ -277,7 +306,7 @@ func runWaitCase(cs *WaitCase) (*waitObs, []finding) {
 			if err == nil {
 				if len(slots) == 0 || !slots[0].IsError() {
 					add("cancelled-item-success:batch", "item 0 was cancelled during its retry wait but its slot is not an error")
-				} else if !errors.Is(slots[0].Error(), context.Canceled) {
+				} else if ce := ctx.Err(); ce == nil || !errors.Is(slots[0].Error(), ce) {
 					add("cancelled-item-error-not-ctx:batch", "item 0 was cancelled during its retry wait; its slot error %q does not match the context's error", slots[0].Error())
 				} else {
 					o.SlotCtx = true
@@ -286,6 +315,14 @@ func runWaitCase(cs *WaitCase) (*waitObs, []finding) {
 		}
 		if n := len(w.starts[0]); n > cs.Cancel {
 			add("attempt-after-cancel:"+cs.Kind, "a new attempt (%d) was started after the cancellation that followed attempt %d", n, cs.Cancel)
+		}
+		if cs.DeadlineMs > 0 {
+			for item, st := range w.starts {
+				if len(st) > 1 {
+					add("attempt-after-deadline:"+cs.Kind, "the context's deadline (%d ms) expired while item %d sat in its %v retry wait; attempt %d was started nevertheless instead of ending the wait with the context's error", cs.DeadlineMs, item, time.Duration(cs.WaitNs), len(st))
+					break
+				}
+			}
 		}
 	}
 	return o, fs
@@ -359,6 +396,27 @@ func runC20(c *Cfg) {
 					cases = append(cases, &WaitCase{Family: "interrupt", Kind: kind, WaitNs: int64(time.Hour), N: n, K: n + 1, Cancel: 1, InCB: in, C: cc, Items: 3, CtxCause: true})
 				}
 			}
+		}
+	}
+	// the context's own deadline expires inside the hour-long wait (nobody calls cancel)
+	for _, kind := range []string{"struct", "func", "batch"} {
+		for _, cc := range []int{0, 2} {
+			if kind != "batch" && cc != 0 {
+				continue
+			}
+			for _, fb := range []bool{false, true} {
+				cases = append(cases, &WaitCase{Family: "interrupt-by-deadline", Kind: kind, WaitNs: int64(time.Hour), N: 3, K: 4, Cancel: 1, InCB: true, DeadlineMs: 120, C: cc, Items: 3, FB: fb, Stop: cc == 2 && fb})
+			}
+		}
+	}
+	// the wait is re-configured after the node has run once: the wait in force now is the one that is honoured
+	for _, kind := range []string{"struct", "func", "batch"} {
+		for _, cc := range []int{0, 2} {
+			if kind != "batch" && cc != 0 {
+				continue
+			}
+			cases = append(cases, &WaitCase{Family: "lower-bound-after-reconfiguration", Kind: kind, WaitNs: int64(20 * time.Millisecond), PreWaitNs: int64(time.Millisecond), N: 3, K: 3, C: cc, Items: 3})
+			cases = append(cases, &WaitCase{Family: "lower-bound-after-reconfiguration", Kind: kind, WaitNs: int64(15 * time.Millisecond), PreWaitNs: int64(time.Millisecond), N: 2, K: 3, C: cc, Items: 2, Route: "opt-all"})
 		}
 	}
 	// later attempt indices: a 400 ms wait is really waited out j-1 times, then cancelled 20 ms into the j-th wait;
